@@ -469,6 +469,12 @@ pub fn judge_rounds(kind: Kind, mask: u32, rounds: &[Vec<usize>], mode: Mode, ti
                     if mask >> i & 1 == 1 && x.is_some() && x.time == tau {
                         issuers.push((i, x));
                     }
+                    // ... and one of that time in the device terminal's own slot (which of two equally new
+                    // commands a terminal read returns - its own or its partner's - is not specified)
+                    let x = ro.own_before[i];
+                    if x.is_some() && x.time == tau && !issuers.contains(&(i, x)) {
+                        issuers.push((i, x));
+                    }
                 }
                 let check = |who: &str, j: usize, got: Obs, e: &mut Eng| -> bool {
                     let mut val_ok = false;
